@@ -45,7 +45,12 @@ META = dict(
          "whiteChars characters), leave_copy_ignore_follows_default (leave_whitespace -> set_default_whitespace_chars(c) "
          "-> copy -> ignore_whitespace: the copy skips exactly the characters of c, for every state / expression / c), "
          "copy_after_exit_follows_entry_default (after any well-nested context body a copy of any default-following "
-         "expression, also one built or leave_whitespace()d inside, gets the entry default), alt_ws_scope. "
+         "expression, also one built or leave_whitespace()d inside, gets the entry default), alt_ws_scope; "
+         "route_irrelevant / run_route_irrelevant (the class, instance or synonym through which a static setter is called "
+         "does not enter: same state, same exception, for single calls and whole histories), shadows_never_created + "
+         "live_one_cell (no command gives a subclass an own copy of a setting attribute, none has one after import - "
+         "generated fact - so after any history every class of the hierarchy reads the base class's cell), "
+         "restore_every_class_view (leaving a context restores the settings as read through every class). "
          "PARTIAL: default_ws_scope_partial and forward_ws_scope_partial speak about "
          "the whiteChars/copyDefaultWhiteChars/skipWhitespace attributes (new expressions incl. MatchFirst/Or and Forward(), copies, "
          "And/Group/Opt/... composites over existing expressions, `fwd <<= e` taking over e's set AND flag so that later "
@@ -59,7 +64,8 @@ META = dict(
     note="Trusted: Lean kernel; axioms propext/Classical.choice/Quot.sound; the Settings transcription (tied to /repo by "
          "a differential run on every check: full raw state incl. object identity of the cache/memo tables after every "
          "command of random and exhaustive histories) and the class data regenerated from the live package into "
-         "PPProofs/Props/Gen/Settings.lean; the Python snapshot function (class attributes, .size, ._capacity). "
+         "PPProofs/Props/Gen/Settings.lean; the Python snapshot function (class attributes, .size, ._capacity; "
+         "class-local copies of a setting are detected by `attr in cls.__dict__` over all loaded subclasses). "
          "Settings are assumed to be changed only through the public setters (direct assignment only for "
          "verbose_stacktrace and __compat__ flags). Parse-time whitespace skipping of composites is oracle-checked only "
          "(plain elements: transcribed preParse loop).",
@@ -89,7 +95,17 @@ THEOREMS = [NS + t for t in (
     "leave_copy_ignore_follows_default",
     "copy_after_exit_follows_entry_default",
     "alt_ws_scope",
+    "route_irrelevant",
+    "run_route_irrelevant",
+    "shadows_never_created",
+    "live_one_cell",
+    "restore_every_class_view",
 )]
+
+# the class attributes that hold the settings; owner = the class the setters assign to by name
+PE_SETTING_ATTRS = ["DEFAULT_WHITE_CHARS", "verbose_stacktrace", "_literalStringClass", "_packratEnabled",
+                    "_left_recursion_enabled", "_parse", "packrat_cache", "recursion_memos"]
+KW_SETTING_ATTRS = ["DEFAULT_KEYWORD_CHARS"]
 
 GEN_REL = "PPProofs/Props/Gen/Settings.lean"
 LIT_CLASSES = ["Literal", "Suppress", "CaselessLiteral", "Keyword", "CaselessKeyword"]
@@ -115,6 +131,42 @@ class World:
                 bl.append(e)
         self.builtins = bl
         self.lit_classes = [getattr(pp, n) for n in LIT_CLASSES]
+
+        # user subclasses (a setter may be called through them, and they read the settings like any other class)
+        class HarnessKeyword(pp.Keyword):
+            pass
+
+        class HarnessWord(pp.Word):
+            pass
+
+        def strict_subclasses(c):
+            out = []
+            for sub in c.__subclasses__():
+                out.append(sub)
+                out.extend(strict_subclasses(sub))
+            return out
+
+        def uniq(cs):
+            seen, out = set(), []
+            for c in sorted(cs, key=lambda c: (c.__module__, c.__qualname__)):
+                if id(c) not in seen:
+                    seen.add(id(c))
+                    out.append(c)
+            return out
+
+        # every (class, attribute) where a class-local entry would hide the base class's setting
+        self.watch = [(c, c.__qualname__.split(".")[-1], a) for c in uniq(strict_subclasses(pp.ParserElement))
+                      for a in PE_SETTING_ATTRS]
+        self.watch += [(c, c.__qualname__.split(".")[-1], a) for c in uniq(strict_subclasses(pp.Keyword))
+                       for a in KW_SETTING_ATTRS]
+        self.pristine_shadows = [(n, a) for c, n, a in self.watch if a in c.__dict__]
+        # routes: route 0 is the base class; classes of the hierarchy, instances, user subclasses
+        self.pe_routes = [pp.ParserElement, pp.Word, pp.Literal, pp.Keyword, pp.CaselessKeyword, pp.Forward, pp.And,
+                          pp.Regex, pp.Token, pp.MatchFirst, pp.Word("x"), pp.Empty(), pp.CaselessKeyword("x"),
+                          pp.Group(pp.Word("x")), HarnessWord, HarnessWord("x"), HarnessKeyword]
+        self.kw_routes = [pp.Keyword, pp.CaselessKeyword, pp.Keyword("x"), pp.CaselessKeyword("x"), HarnessKeyword,
+                          HarnessKeyword("x")]
+        self.kw_classes = [pp.Keyword, pp.CaselessKeyword, HarnessKeyword]
         self.diag = core.__diag__
         self.compat = core.__compat__
         PE = self.PE
@@ -158,6 +210,9 @@ class World:
             e.whiteChars = set(w)
             e.copyDefaultWhiteChars = c
             e.skipWhitespace = s
+        for c, n, a in self.watch:      # class-local copies of a setting (created only by a defective setter)
+            if a in c.__dict__ and (n, a) not in self.pristine_shadows:
+                delattr(c, a)
         self.reset_world()
 
     def oid(self, o):
@@ -222,11 +277,12 @@ def snapshot(W: World):
         [[_wsset(e), _b(e.copyDefaultWhiteChars), _fwd_empty(pp, e), _b(e.skipWhitespace)] for e in W.builtins],
         [[_wsset(e), _b(e.copyDefaultWhiteChars), _fwd_empty(pp, e), _b(e.skipWhitespace)] for e in W.users],
         len(W.objs),
+        sorted([n, a] for c, n, a in W.watch if a in c.__dict__),
     ]
 
 
 # indices into a snapshot
-I_WS, I_KW, I_LIT, I_VERB, I_PK, I_CACHE, I_PSEL, I_LR, I_MEMO, I_DIAG, I_COMPAT, I_BUILTINS, I_USERS, I_GEN = range(14)
+I_WS, I_KW, I_LIT, I_VERB, I_PK, I_CACHE, I_PSEL, I_LR, I_MEMO, I_DIAG, I_COMPAT, I_BUILTINS, I_USERS, I_GEN, I_SHADOWS = range(15)
 
 
 def obs(snap):
@@ -262,6 +318,10 @@ def _new_user_expr(W, variant):
     return pp.CaselessLiteral("ab")
 
 
+def _route_names(routes):
+    return "[" + ", ".join(r.__name__ if isinstance(r, type) else f"<{type(r).__name__} instance>" for r in routes) + "]"
+
+
 def resolve_op(W: World, op, variant):
     """the command as the model sees it: `["new"]` builds a leaf or, for some variants, a MatchFirst / Or over
     an existing user expression (`newalt i`: these take the alternative's skipWhitespace over)"""
@@ -275,27 +335,31 @@ def apply_op(W: World, op, variant=0):
     pp, PE = W.pp, W.PE
     k = op[0]
     alt = variant % 2 == 1
+    n_args = {"setws": 2, "setkw": 2, "lit": 2, "packrat": 3, "lr": 3, "disable": 1, "reset": 1}.get(k)
+    route = op[n_args] if n_args is not None and len(op) > n_args else 0
+    via = (W.kw_routes if k == "setkw" else W.pe_routes)
+    via = via[route % len(via)]     # the class / instance the static setter is looked up on
     try:
         with warnings.catch_warnings():
             warnings.simplefilter("ignore")
             if k == "setws":
-                (PE.setDefaultWhitespaceChars if alt else PE.set_default_whitespace_chars)(op[1])
+                (via.setDefaultWhitespaceChars if alt else via.set_default_whitespace_chars)(op[1])
             elif k == "setkw":
-                (pp.Keyword.setDefaultKeywordChars if alt else pp.Keyword.set_default_keyword_chars)(op[1])
+                (via.setDefaultKeywordChars if alt else via.set_default_keyword_chars)(op[1])
             elif k == "lit":
-                (PE.inlineLiteralsUsing if alt else PE.inline_literals_using)(W.lit_classes[op[1]])
+                (via.inlineLiteralsUsing if alt else via.inline_literals_using)(W.lit_classes[op[1]])
             elif k == "verbose":
                 PE.verbose_stacktrace = op[1]
             elif k == "packrat":
-                f = PE.enablePackrat if alt else PE.enable_packrat
+                f = via.enablePackrat if alt else via.enable_packrat
                 f(op[1], force=True) if op[2] else f(op[1])
             elif k == "lr":
-                f = PE.enableLeftRecursion if alt else PE.enable_left_recursion
+                f = via.enableLeftRecursion if alt else via.enable_left_recursion
                 f(op[1], force=True) if op[2] else f(op[1])
             elif k == "disable":
-                (PE.disableMemoization if alt else PE.disable_memoization)()
+                (via.disableMemoization if alt else via.disable_memoization)()
             elif k == "reset":
-                (PE.resetCache if alt else PE.reset_cache)()
+                (via.resetCache if alt else via.reset_cache)()
             elif k == "diag":
                 if alt and op[1] in pp.Diagnostics.__members__:
                     (pp.enable_diag if op[2] else pp.disable_diag)(pp.Diagnostics[op[1]])
@@ -432,9 +496,12 @@ def _probe(W):
             lit = type((pp.Empty() + "qq").exprs[1]).__name__
             kw = "".join(sorted(pp.Keyword("kw").identChars))
             ws = "".join(sorted(pp.Word("ab").whiteChars))
-        return [lit, kw, ws, [type(e).__name__ for e in W.users]]
+            # the same settings as picked up by other classes of the hierarchy
+            extra = {"kw": {c.__name__: "".join(sorted(c("kw").identChars)) for c in W.kw_classes},
+                     "ws": {c.__name__: "".join(sorted(c("ab").whiteChars)) for c in (pp.Literal, pp.CaselessKeyword)}}
+        return [lit, kw, ws, [type(e).__name__ for e in W.users], extra]
     except Exception as e:  # noqa: BLE001
-        return ["probe-raised", type(e).__name__, "", [type(e).__name__ for e in W.users]]
+        return ["probe-raised", type(e).__name__, "", [type(e).__name__ for e in W.users], {}]
 
 
 def _behaviour(W):
@@ -584,10 +651,31 @@ def oracle(W, case, entry, tr, probes=None, resolved=None):
             add("parse-function-inconsistent-with-packrat-flag", i, "_parse is _parseCache exactly while packrat is enabled",
                 {"_parse": snap[I_PSEL], "_packratEnabled": snap[I_PK], "left_recursion": snap[I_LR]},
                 "parse_selector_follows_packrat")
+        # -- a setting is one cell of the base class: no command gives a subclass its own copy
+        if snap[I_SHADOWS] != prev[I_SHADOWS]:
+            new = [x for x in snap[I_SHADOWS] if x not in prev[I_SHADOWS]] or snap[I_SHADOWS]
+            add(f"class-local-copy-of-setting:{new[0][0]}.{new[0][1]}" if new else "class-local-copy-of-setting", i,
+                {"classes with an own entry for a setting attribute": prev[I_SHADOWS]},
+                {"classes with an own entry for a setting attribute": snap[I_SHADOWS]},
+                "shadows_never_created")
         if probes is not None:
             lit, kw, ws, kinds = probes[i][:4]
-            if len(probes[i]) > 4:
-                for j, bh in enumerate(probes[i][4]):
+            extra = probes[i][4]
+            if isinstance(snap[I_KW], str):
+                for cn, got in extra.get("kw", {}).items():
+                    # a caseless keyword upper-cases its identifier characters (Keyword.__init__)
+                    want = "".join(sorted(set(snap[I_KW].upper() if cn == "CaselessKeyword" else snap[I_KW])))
+                    if got != want:
+                        add(f"default-keyword-chars-not-used:{cn}", i,
+                            {f"identChars of a new {cn}": want},
+                            {f"identChars of a new {cn}": got}, "live_one_cell (settings take effect, oracle only)")
+            if isinstance(snap[I_WS], str):
+                for cn, got in extra.get("ws", {}).items():
+                    if got != "".join(sorted(set(snap[I_WS]))):
+                        add(f"default-whitespace-not-used-by-new-expression:{cn}", i,
+                            "".join(sorted(set(snap[I_WS]))), got, "live_one_cell (settings take effect, oracle only)")
+            if len(probes[i]) > 5:
+                for j, bh in enumerate(probes[i][5]):
                     if bh is not None and bh[0] != bh[1]:
                         add("whitespace-skipping-differs-from-whiteChars", i,
                             {"expression": j, "class": bh[2], "skips": bh[1]}, {"expression": j, "skips": bh[0]},
@@ -634,6 +722,13 @@ def oracle(W, case, entry, tr, probes=None, resolved=None):
                     for k in o_ent:
                         if o_ent[k] != o_now[k]:
                             add(f"not-restored:{k}", i, {k: o_ent[k]}, {k: o_now[k]}, "restore_total_and_exact")
+                    if ent[I_SHADOWS] != snap[I_SHADOWS]:
+                        d = [x for x in snap[I_SHADOWS] if x not in ent[I_SHADOWS]] or \
+                            [x for x in ent[I_SHADOWS] if x not in snap[I_SHADOWS]]
+                        add(f"not-restored:class-view:{d[0][0]}.{d[0][1]}", i,
+                            {"classes reading their own copy instead of the base class's setting": ent[I_SHADOWS]},
+                            {"classes reading their own copy instead of the base class's setting": snap[I_SHADOWS]},
+                            "restore_every_class_view")
                     for j, (b0, b1) in enumerate(zip(ent[I_BUILTINS], snap[I_BUILTINS])):
                         if b0 != b1:
                             add("not-restored:builtin-whiteChars", i, {"builtin": str(W.builtins[j]), "value": b0},
@@ -674,6 +769,13 @@ def oracle(W, case, entry, tr, probes=None, resolved=None):
                         want = Sym("unbounded") if c[1] is None else [Sym("lru"), c[1]]
                         if snap[I_LR] is not True or snap[I_MEMO][1] != want:
                             add("enable_left_recursion-wrong-result", i, want, o_now["left_recursion"], "packrat_lr_exclusive")
+            elif k == "setkw":
+                if snap[I_KW] != c[1]:
+                    add("setkw-default-not-set", i, {"Keyword.DEFAULT_KEYWORD_CHARS": c[1]},
+                        {"Keyword.DEFAULT_KEYWORD_CHARS": snap[I_KW]}, "route_irrelevant")
+            elif k == "lit":
+                if snap[I_LIT] != c[1]:
+                    add("inline-literal-class-not-set", i, LIT_CLASSES[c[1]], snap[I_LIT], "route_irrelevant")
             elif k == "setws":
                 ch = c[1]
                 w = "".join(sorted(set(ch)))
@@ -887,6 +989,7 @@ def gen_facts(W):
         "⟨[" + ", ".join(_lchar(ch) for ch in sorted(w)) + "], " + ("true" if cd else "false") + ", " + ("true" if fe else "false") + ", "
         + ("true" if sk else "false") + "⟩"
         for (w, cd, sk), fe in zip(p["builtins"], p["builtins_fwd_empty"]))
+    shadows = ", ".join(f"({_lstr(n)}, {_lstr(a)})" for n, a in W.pristine_shadows)
     return f"""import PPModel.Mod.Settings
 /-! GENERATED by harness/props/c19.py from the live package in /repo (class data of `__diag__` / `__compat__`,
     import-time defaults, whitespace attributes of the distinct objects in `core._builtin_exprs`).
@@ -907,7 +1010,10 @@ def liveKwChars : String := {_lstr(p["kw"])}
 def liveBuiltins : List Expr := [
   {bl}]
 
-def liveInit : State := initState liveCfg liveDefaultWs liveKwChars liveBuiltins
+/-- strict subclasses of ParserElement / Keyword with an own `__dict__` entry for a setting attribute -/
+def liveShadows : List (String × String) := [{shadows}]
+
+def liveInit : State := initState liveCfg liveDefaultWs liveKwChars liveBuiltins liveShadows
 
 end PP.Settings
 """
@@ -957,7 +1063,19 @@ def gen_expr_op(rng, kinds):
     return [k]
 
 
+def _routed(rng, op):
+    """the same setter call, sometimes through another class of the hierarchy / an instance / a user subclass"""
+    if not isinstance(op, str) and op[0] in ("setws", "setkw", "lit", "packrat", "lr", "disable", "reset") \
+            and rng.random() < 0.4:
+        return op + [rng.randrange(1, 18)]
+    return op
+
+
 def gen_op(rng, W, kinds, mode_heavy=True, expr_heavy=False):
+    return _routed(rng, _gen_op(rng, W, kinds, mode_heavy, expr_heavy))
+
+
+def _gen_op(rng, W, kinds, mode_heavy=True, expr_heavy=False):
     n_users = len(kinds)
     r = rng.random()
     dn = list(W.diag._all_names)
@@ -1180,7 +1298,14 @@ def run(ctx):
         "recursive or not) on any user expression, attributes (whiteChars, copyDefaultWhiteChars, skipWhitespace) "
         "compared after every command and the "
         "characters really skipped by every parsable user expression compared with its attributes at the end; "
-        "ws-toggle-histories = directed: a leaf / wrapper / assigned Forward / MatchFirst is built (before or inside a "
+        "setters (set_default_whitespace_chars, set_default_keyword_chars, inline_literals_using, enable_packrat, "
+        "enable_left_recursion, disable_memoization, reset_cache) are called in 40% of the cases through another route: "
+        "a subclass (Word, Literal, Keyword, CaselessKeyword, Forward, And, Regex, Token, MatchFirst), an instance, a "
+        "user-defined subclass or its instance, each with both spellings; every snapshot lists the (class, attribute) "
+        "pairs of all strict subclasses of ParserElement / Keyword that have an own entry for a setting attribute "
+        "(compared with the model after every command and with the entry value at every exit), and new Keyword / "
+        "CaselessKeyword / user-subclass keywords and Word / Literal / CaselessKeyword expressions are probed after "
+        "every command; ws-toggle-histories = directed: a leaf / wrapper / assigned Forward / MatchFirst is built (before or inside a "
         "context) and leave_whitespace()d, the default changes (setter, nested enter, exits), copies are made inside and "
         "after the contexts and ignore_whitespace()d, random expression operations in between; exhaustive stream = 5 mode entry configurations x all sequences up to length L over "
         "13 mode commands; non-trivial = the body changes at least one observable setting; every built-in's whiteChars "
@@ -1296,7 +1421,10 @@ def run(ctx):
             c = {"ws_behaviour": {**c["ws_behaviour"], "expression": p["at"]}}
         ctx.fail_input(a, c, p["expected"], p["actual"], theorem=(NS + p["theorem"]) if p["theorem"] and " " not in p["theorem"] else p["theorem"],
                        how="harness.props.c19.run_real(world(), case): apply case['setup'] from the pristine import state, "
-                           "then case['cmds'] ('enter'/'exit' = reset_pyparsing_context().__enter__/__exit__); "
+                           "then case['cmds'] ('enter'/'exit' = reset_pyparsing_context().__enter__/__exit__); an optional "
+                           "trailing number of setws/setkw/lit/packrat/lr/disable/reset is the route the static setter is "
+                           "called through: setkw -> " + _route_names(W.kw_routes) + "; others -> "
+                           + _route_names(W.pe_routes) + " (index modulo the table length; 0/absent = the base class); "
                            "case['ws_behaviour']: harness.props.c19.ws_behaviour_case(chars, in_context) - expected/"
                            "actual are the probe characters the named expression skips before its match")
     W.hard_reset()
